@@ -34,7 +34,9 @@ CONSTANTS
     SleepToPrev,    \* sleep(ms) delays the request that FOLLOWS it (attached to the previous step)
     ExactMult,      \* name(n) yields exactly n steps
     UseWeights,     \* ring composition follows weight / gcd
-    RespCanPanic    \* C19: a response may escalate into a panic of the shot (must be FALSE)
+    RespCanPanic,   \* C19: a response may escalate into a panic of the shot (must be FALSE)
+    GrpcAbortOnStatus, \* negative control: the grpc gun ends the shot at ANY error status (documented: only an assertion does)
+    HtmlEscapes     \* the html templater escapes what it renders (FALSE: negative control)
 
 VARIABLE st
 
@@ -140,7 +142,7 @@ IsGrpc(s) == s.cs.gun = "grpc"
 \* the templater of a case: "text" (text/template) or "html" (html/template).  Where they differ: html/template
 \* HTML-escapes the values it renders (r0< -> r0&lt;) and renders a variable that is not there as NOTHING, where
 \* text/template writes "<no value>"
-EscV(tmpl, v) == IF tmpl # "html" THEN v
+EscV(tmpl, v) == IF tmpl # "html" \/ ~HtmlEscapes THEN v
                  ELSE CASE v.t = "r<"      -> [v EXCEPT !.t = "r&lt;"]
                         [] v.t = "novalue" -> NoVal
                         [] OTHER           -> v
@@ -264,7 +266,8 @@ PostF(s, i) ==
         last == me.pos >= Len(me.steps)
     \* the body is read (or drained) before any postprocessor runs: a body that cannot be read fails the step -
     \* with or without postprocessors - and the sample keeps the status that was received
-    IN IF me.pend.trunc \/ assertFails THEN FailF(s, i, me.pend.status)
+        grpcAborts == GrpcAbortOnStatus /\ IsGrpc(s) /\ me.pend.status # 200
+    IN IF me.pend.trunc \/ assertFails \/ grpcAborts THEN FailF(s, i, me.pend.status)
        ELSE [s EXCEPT !.samples = Append(@, Sample(s, i, me.pend.status, FALSE)),
                       !.inst[i] = [@ EXCEPT !.vs[nm].hasPost = captured, !.vs[nm].tok = IF captured THEN tok ELSE NoVal,
                                             !.lastSleep = Step(s, i).sleep,
@@ -340,6 +343,18 @@ TotalW(c) == LET RECURSIVE Sum(_)
 Proportional ==
     (Len(st.cs.scens) > 1 /\ st.taken > 0 /\ st.taken % Len(st.ring) = 0) =>
         \A j \in 1..Len(st.cs.scens) : ShotsOf(st, j) * TotalW(st.cs) = EffW(st.cs.scens[j].weight) * st.taken
+
+\* grpc/scenario: an error status of the peer does not end the shot unless the call has an assert/response postprocessor:
+\* with a status script that hits a call without assertion (and no other failure) every listed call is made
+GrpcGoesOn ==
+    (NInst = 1 /\ Done(st) /\ IsGrpc(st) /\ st.cs.script.kind = "status" /\ st.cs.script.at <= Len(st.log)
+       /\ ~st.cs.reqs[st.log[st.cs.script.at].req].assert
+       /\ \A j \in 1..Len(st.samples) : st.samples[j].proto \in {200, 404})
+    => [j \in 1..Len(st.log) |-> st.log[j].req] = RingLog(st.cs, st.ring, st.cs.shots)
+\* templaters: a character html/template escapes never reaches the target raw through the html templater, and is never
+\* escaped by the text templater
+EscapingOK == st.cs.special =>
+    \A j \in 1..Len(st.log) : st.log[j].val.t # (IF st.cs.tmpl = "html" THEN "r<" ELSE "r&lt;")
 
 \* C19: no response makes the shot panic; after any response the instance takes the next ammo
 NoPanic == st.panics = 0
